@@ -1105,24 +1105,36 @@ class AsyncBackgroundBatcher(Generic[A_contra, R_co]):
         try:
             fut = self._retention_cache[key]
         except KeyError:
-            pass
-        else:
-            return await fut
+            fut = self._retention_cache[key] = self._loop.create_future()
+            # Evict based on the future rather than this caller so the
+            # key stays reserved until answered even if this is cancelled
+            fut.add_done_callback(partial(self._evict, key))
+            await self._queue.put((key, arg, fut))
 
-        fut = self._retention_cache[key] = self._loop.create_future()
-        await self._queue.put((key, arg, fut))
+        # Shield so cancelling this caller doesn't cancel the future
+        # shared with every other caller waiting on the same key
+        return await aio.shield(fut)
 
-        try:
-            return await fut
-        finally:
+    def _evict(self,
+               key: str,
+               fut: 'aio.Future[R_co]',
+               *,
+               delay: bool = True) -> None:
+        """
+        Remove the given finished future from the retention cache,
+        after :attr:`retention_timeout` has passed if it is set.
+        """
+        if delay:
+            if not fut.cancelled():
+                fut.exception()  # Mark as retrieved, callers may be gone
             if self.retention_timeout > 0:
                 self._loop.call_later(
                     self.retention_timeout,
-                    self._retention_cache.pop,
-                    key,
+                    partial(self._evict, key, fut, delay=False),
                 )
-            else:
-                del self._retention_cache[key]
+                return
+        if self._retention_cache.get(key) is fut:
+            del self._retention_cache[key]
 
     def _daemon_task(
         self,
@@ -1205,6 +1217,8 @@ class AsyncBackgroundBatcher(Generic[A_contra, R_co]):
                 )
                 async for key, result in self.func(args):
                     fut = futs.pop(key)
+                    if fut.done():  # No one is waiting anymore
+                        continue
                     if isinstance(result, Exception):
                         try:
                             fut.set_exception(result)
@@ -1215,13 +1229,16 @@ class AsyncBackgroundBatcher(Generic[A_contra, R_co]):
         except Exception as e:
             logger.debug("Exception while processing batch", exc_info=True)
             for fut in futs.values():
-                fut.set_exception(e)
+                if not fut.done():
+                    fut.set_exception(e)
             return
 
         if futs:
             logger.error("Missing outputs for %d futures", len(futs))
             for key, fut in futs.items():
-                fut.set_exception(ValueError(f"Missing result for {key!r}"))
+                if not fut.done():
+                    e = ValueError(f"Missing result for {key!r}")
+                    fut.set_exception(e)
 
 
 _CROSS_LOOP_POOL = ThreadPoolExecutor(32)
